@@ -61,7 +61,10 @@ INTS = [0, 8, 16, 24, 32, 1, 9, 17, 7, 100, 64, 128]
 MIXED = ["'s1'", "'s2'", "3", "11", "TRUE", "FALSE", "NULL", "2.5",
          "[1, 'a']", "'t'", "-4", "[]"]
 FILLERS = ["1", "'a'", "[1, 2]", "fn(x) x", "fn(a, b) a", "TRUE", "2",
-           "'b'", "<<1>>", "0"]
+           "'b'", "<<1>>", "0",
+           # callbacks under which distinct elements tie
+           "fn(x) 1", "fn(x) length(string(x))", "fn(a, b) 0",
+           "fn(x) TRUE", "fn(a, b) length(string(a)) - length(string(b))"]
 VALS = ["1", "2", "'v'", "'w'", "[1]", "3", "TRUE", "'a'"]
 
 SKIP_FUNCS = {"bind_native", "set_seed", "run", "execute", "timestamp",
@@ -121,6 +124,19 @@ def syntactic_sinks(kind):
     add("error-value", "error c")
     add("catch-value", "do error c; catch c2 'no'; catch c 'yes'; end")
     add("json-ish", "string([c, <<<1 => c>>>])")
+    # c3 is the same logical container as c, always built in one fixed
+    # order: equal containers must be ONE element / ONE key however built
+    add("dedup-set", "[length(<<c, c3>>), c3 in <<c>>, c in [c3], c == c3]")
+    add("dedup-key", "[length(<<<c => 1, c3 => 2>>>), <<<c => 1>>>[c3, "
+        "'miss'], string(<<<c => 1, c3 => 2>>>)]")
+    add("dedup-nested", "[length(<<[c], [c3]>>), length(<<<<c>>, <<c3>>>>), "
+        "find([[c]], [c3])]")
+    add("unique-equal", "[length(unique([c, c3, c])), length(set([c, c3]))]")
+    add("sorted-key-ties", "sorted(c, key = fn(x) length(string(x)))")
+    add("sorted-cmp-ties", "sorted(c, cmp = fn(a, b) 0)")
+    add("sorted-both", "sorted(list(c), key = fn(x) 1)")
+    add("max-min-ties", "[max(list(c), key = fn(x) 1), min(list(c), "
+        "key = fn(x) 1)]")
     if kind == "map":
         add("for-keys", "for k in keys c do print(string(k) + '|'); end")
         add("for-values", "for v in values c do print(string(v) + '|'); "
@@ -277,6 +293,9 @@ def make_program(rng, pid_, sink, tpl, kind, cls):
         csrc = construct(kind, order, [vals[e] for e in order], how, extras)
         c2 = construct(kind, e2, [vals.get(e, "1") for e in e2],
                        "literal", []).replace("def c =", "def c2 =", 1)
+        c2 += "; " + construct(kind, orders[0],
+                               [vals[e] for e in orders[0]], "literal",
+                               []).replace("def c =", "def c3 =", 1)
         # construction on line 1, second container on line 2, the sink on
         # line 3: reported positions are the same for every variant
         variants.append(f"{csrc};\n{c2};\n{body}")
